@@ -671,6 +671,94 @@ func runUDPReclose(datagramFirst bool) FloodRec {
 	return r
 }
 
+// runCtxClose: a client connection created with a caller-supplied parent context (options.WithContext); the parent context
+// ends first (an application shutdown signal), then the application closes the connection from two goroutines: Close still
+// completes the done signal and runs every on-close callback once.
+func runCtxClose(transport string) FloodRec {
+	r := FloodRec{Op: "ctxclose", Transport: transport, OnClose: []int{}, Busy: true}
+	pctx, pcancel := context.WithCancel(context.Background())
+	defer pcancel()
+	counts := make([]atomic.Int64, 3)
+	var doneCh <-chan struct{}
+	var closeFn func() error
+	var cleanup func()
+	switch transport {
+	case "udp":
+		peer, err := net.ListenUDP("udp4", &net.UDPAddr{IP: net.IPv4(127, 0, 0, 1)})
+		if err != nil {
+			rec.Die("listen: %v", err)
+		}
+		cc, err := udp.Dial(peer.LocalAddr().String(), options.WithContext(pctx), options.WithErrors(func(error) {}))
+		if err != nil {
+			rec.Die("dial: %v", err)
+		}
+		for i := range counts {
+			i := i
+			cc.AddOnClose(func() { counts[i].Add(1) })
+		}
+		doneCh, closeFn, cleanup = cc.Done(), cc.Close, func() { _ = cc.Close(); _ = peer.Close() }
+	default:
+		l, err := net.Listen("tcp4", "127.0.0.1:0")
+		if err != nil {
+			rec.Die("listen: %v", err)
+		}
+		go func() {
+			if c, err := l.Accept(); err == nil {
+				buf := make([]byte, 256)
+				for {
+					if _, err := c.Read(buf); err != nil {
+						_ = c.Close()
+						return
+					}
+				}
+			}
+		}()
+		cc, err := tcp.Dial(l.Addr().String(), options.WithContext(pctx), options.WithErrors(func(error) {}))
+		if err != nil {
+			rec.Die("dial: %v", err)
+		}
+		for i := range counts {
+			i := i
+			cc.AddOnClose(func() { counts[i].Add(1) })
+		}
+		doneCh, closeFn, cleanup = cc.Done(), cc.Close, func() { _ = cc.Close(); _ = l.Close() }
+	}
+	defer func() { bounded(cleanup) }()
+	time.Sleep(5 * time.Millisecond) // the reader is parked in the socket
+	pcancel()
+	time.Sleep(5 * time.Millisecond)
+	var wg sync.WaitGroup
+	var mu sync.Mutex
+	for g := 0; g < 2; g++ {
+		wg.Add(1)
+		go func() {
+			defer wg.Done()
+			defer func() {
+				if recover() != nil {
+					mu.Lock()
+					r.Panics++
+					mu.Unlock()
+				}
+			}()
+			_ = closeFn()
+		}()
+	}
+	bounded(wg.Wait)
+	r.Done = hooks.WaitFor(wd, func() bool {
+		select {
+		case <-doneCh:
+			return true
+		default:
+			return false
+		}
+	})
+	time.Sleep(2 * time.Millisecond)
+	for i := range counts {
+		r.OnClose = append(r.OnClose, int(counts[i].Load()))
+	}
+	return r
+}
+
 func memnetBuild(k int) []byte {
 	return memnet.Build(message.NonConfirmable, int(codes.GET), int32(0x3000+k), []byte{0xF0, byte(k)}, message.Options{{ID: message.URIPath, Value: []byte("hang")}}, nil)
 }
@@ -684,6 +772,8 @@ func RunServers(out string, rounds int) {
 			w.Put(runFlood(tr, []int{1, 2, 16}[round%3]))
 		}
 		w.Put(runCSMFail())
+		w.Put(runCtxClose("udp"))
+		w.Put(runCtxClose("tcp"))
 		w.Put(runUDPReclose(true))
 		w.Put(runUDPReclose(false))
 		w.Put(runStopEarly("tls", "handshake"))
